@@ -40,6 +40,20 @@ type readerRes struct {
 	v   interface{}
 	p   int
 	err error
+	et  string // text of err when it was returned (a returned error is a returned value too)
+}
+
+// errText is err.Error() (a panicking Error method counts as text "<panic>").
+func errText(err error) (s string) {
+	if err == nil {
+		return ""
+	}
+	defer func() {
+		if recover() != nil {
+			s = "<panic>"
+		}
+	}()
+	return err.Error()
 }
 
 // inputArena is the one input buffer every call of a history reads from: a caller that refills
@@ -85,6 +99,7 @@ func (o readerOp) apply(vr *rjson.ValueReader) (res readerRes) {
 		}
 		res.p, res.err = p, err
 	}
+	res.et = errText(res.err)
 	return res
 }
 
@@ -204,6 +219,10 @@ func readerDocs(thorough bool) map[string][]byte {
 	d["escapedkeys2"] = []byte(`{"k` + "\\" + `t1":{"inner` + "\\" + `tlonger_member_name":1}}`)
 	// reads that fail INSIDE a string or member name, and documents whose strings begin with the
 	// same bytes (state refreshed on the failing path)
+	// documents that start with a stray token of each kind, and one-byte garbage
+	for n, t := range map[string]string{"stray-arrend": "]", "stray-objend": "}", "stray-comma": ",", "stray-colon": ":", "stray-x": "x", "stray-minus": "-", "empty-input": " "} {
+		d[n] = []byte(t)
+	}
 	d["strtrunc"] = []byte(`["abc`)
 	d["strfull"] = []byte(`["abcdef",1]`)
 	d["topstrtrunc"] = []byte(`"abc`)
@@ -294,10 +313,12 @@ func (s *readerSys) Replay(hist []int, last int) string {
 			for k := range results {
 				if !sameRes(results[k], frozen[k]) {
 					report(fmt.Sprintf("earlier-result-changed/%s/result#%d/after/%s", s.ops[i].name, k, strings.Join(s.names(hist), ",")), resStr(frozen[k]), resStr(results[k]), i)
+				} else if now := errText(results[k].err); now != frozen[k].et {
+					report(fmt.Sprintf("earlier-error-changed/%s/result#%d/after/%s", s.ops[i].name, k, strings.Join(s.names(hist), ",")), fmt.Sprintf("error text %q (as returned)", frozen[k].et), fmt.Sprintf("%q", now), i)
 				}
 			}
 		}
-		fr := readerRes{cloneTree(res.v), res.p, res.err}
+		fr := readerRes{cloneTree(res.v), res.p, res.err, res.et}
 		if s.lazy && !check {
 			results = append(results, res)
 			frozen = append(frozen, fr)
@@ -314,7 +335,7 @@ func (s *readerSys) Replay(hist []int, last int) string {
 		}
 		// keep the scribbled value as "what the caller now holds" and its own frozen copy
 		results = append(results, res)
-		frozen = append(frozen, readerRes{cloneTree(res.v), res.p, res.err})
+		frozen = append(frozen, readerRes{cloneTree(res.v), res.p, res.err, res.et})
 		_ = fr
 	}
 	for _, h := range hist {
